@@ -9,6 +9,10 @@
                     Base() ; Clone only if the layout has files ; parse     (Kind "text")
      View(l, v)     Layout(l) ; Clone (html: always / text: only if the view has files) ; parse
    Variant "noclone" (html Layout without Clone) is the regression model.
+   A layout in `lbad` has a file that does not parse: every request through it fails,
+   however often it is made and whether or not results are cached (nothing is remembered
+   for it).  Variant "cachefail" (regression) remembers the failed load: the second request
+   is answered with a nil template and no error.
    Property: a view sees helpers (+) layout (+) its own definitions, the more
    specific layer winning; this holds whatever was requested before, cached or not;
    and no object that was handed out is modified afterwards (views are isolated from
@@ -21,13 +25,16 @@ Layouts == {"L1", "L2"}
 Views == {"V1", "V2"}
 Undef == "-"
 
-VARIABLES hdef, ldef, vdef,        \* which file set defines which names (fixed after Init)
+VARIABLES hdef, ldef, vdef, lbad,  \* which file set defines which names; layouts whose files do not parse (fixed after Init)
           heap, nextid, base, layouts, views, handed, reqs
-vars == <<hdef, ldef, vdef, heap, nextid, base, layouts, views, handed, reqs>>
+vars == <<hdef, ldef, vdef, lbad, heap, nextid, base, layouts, views, handed, reqs>>
 
 \* a small but telling family of file sets
 DefSets == {{}, {"N1"}, {"N1", "N2"}}
+Failed == 0          \* object id of a failed request
+NilNoError == 99     \* (regression only) a nil template handed out without an error
 Init == /\ hdef \in DefSets /\ ldef \in [Layouts -> DefSets] /\ vdef \in [Views -> {{}, {"N2"}, {"N1", "N2"}}]
+        /\ lbad \in {{}, {"L2"}}
         /\ heap = << >> /\ nextid = 1 /\ base = 0 /\ layouts = << >> /\ views = << >> /\ handed = << >> /\ reqs = <<>>
 
 Body(layer, who, n) == layer \o ":" \o who \o ":" \o n
@@ -46,6 +53,9 @@ DoBase(st) ==
        [st |-> IF Cached THEN [st1 EXCEPT !.base = id] ELSE st1, id |-> id]
 DoLayout(st, l) ==
   IF Cached /\ l \in DOMAIN st.layouts THEN [st |-> st, id |-> st.layouts[l]]
+  ELSE IF l \in lbad
+       THEN LET b == DoBase(st) IN
+            [st |-> IF Cached /\ Variant = "cachefail" THEN [b.st EXCEPT !.layouts = Put(b.st.layouts, l, NilNoError)] ELSE b.st, id |-> Failed]
   ELSE LET b == DoBase(st)
            hasFiles == ldef[l] # {}
            clone == IF Variant = "noclone" THEN FALSE ELSE (Kind = "html" \/ hasFiles)
@@ -57,6 +67,7 @@ DoLayout(st, l) ==
 DoView(st, l, v) ==
   LET key == <<l, v>> IN
   IF Cached /\ key \in DOMAIN st.views THEN [st |-> st, id |-> st.views[key]]
+  ELSE IF DoLayout(st, l).id \in {Failed, NilNoError} THEN DoLayout(st, l)
   ELSE LET lay == DoLayout(st, l)
            hasFiles == vdef[v] # {}
            clone == Kind = "html" \/ hasFiles
@@ -68,18 +79,20 @@ DoView(st, l, v) ==
 St == [heap |-> heap, nextid |-> nextid, base |-> base, layouts |-> layouts, views |-> views]
 Apply(r, what, l, v) ==
   /\ heap' = r.st.heap /\ nextid' = r.st.nextid /\ base' = r.st.base /\ layouts' = r.st.layouts /\ views' = r.st.views
-  /\ handed' = Put(handed, Len(reqs) + 1, [id |-> r.id, want |-> Expected(l, v)])
+  /\ handed' = Put(handed, Len(reqs) + 1, [id |-> r.id, want |-> IF l \in lbad THEN [n \in Names |-> "ERR"] ELSE Expected(l, v)])
   /\ reqs' = Append(reqs, [what |-> what, l |-> l, v |-> v])
-  /\ UNCHANGED <<hdef, ldef, vdef>>
+  /\ UNCHANGED <<hdef, ldef, vdef, lbad>>
 ReqLayout(l) == Len(reqs) < MaxReq /\ Apply(DoLayout(St, l), "layout", l, "")
 ReqView(l, v) == Len(reqs) < MaxReq /\ Apply(DoView(St, l, v), "view", l, v)
 Next == (\E l \in Layouts : ReqLayout(l)) \/ (\E l \in Layouts, v \in Views : ReqView(l, v)) \/ (Len(reqs) = MaxReq /\ UNCHANGED vars)
 Spec == Init /\ [][Next]_vars
 
 \* every object ever handed out shows -- now and for ever after -- exactly the layering it was asked for
-LayeredAndIsolated == \A i \in DOMAIN handed : heap[handed[i].id] = handed[i].want
-EmitCase == (Emit /\ reqs # <<>>) => PrintT(ToJson([k |-> "tpl", hdef |-> hdef, ldef |-> ldef, vdef |-> vdef, reqs |-> reqs,
+LayeredAndIsolated == \A i \in DOMAIN handed : handed[i].id \notin {Failed, NilNoError} => heap[handed[i].id] = handed[i].want
+\* a request through a layout that does not load fails -- the first time and every time
+BadAlwaysFails == \A i \in DOMAIN handed : (reqs[i].l \in lbad) = (handed[i].id = Failed)
+EmitCase == (Emit /\ reqs # <<>>) => PrintT(ToJson([k |-> "tpl", hdef |-> hdef, ldef |-> ldef, vdef |-> vdef, lbad |-> lbad, reqs |-> reqs,
                                                      want |-> [i \in DOMAIN handed |-> handed[i].want]]))
-Inv == LayeredAndIsolated /\ EmitCase
-View2 == <<hdef, ldef, vdef, heap, nextid, base, layouts, views, handed, reqs>>
+Inv == LayeredAndIsolated /\ BadAlwaysFails /\ EmitCase
+View2 == <<hdef, ldef, vdef, lbad, heap, nextid, base, layouts, views, handed, reqs>>
 =============================================================================
